@@ -500,6 +500,8 @@ def random_program(rng, prone: bool, maxlen=40):
             n = rng.choice(sorted(names)) if names and rng.random() < 0.9 else rng.randrange(3)
             m = rng.choice([6, 6, 7, 0, 1, 2, 3])
             uq = rng.random() < 0.35
+            if m < 4 and t < ntr and kinds[t] == 1:
+                uq = False          # replacing a monitor the eligibility monitors read is a user-induced break
             sel = {0: "n0", 1: "n0", 2: "c0", 3: "c0"}.get(m) if m < 4 else rng.choice(["n0", "n0", "n1", "c0", "c1", "bad"])
             lines.append(f"addmon {t} {n} {m} {sel} {b(uq)} {b(rng.random() < 0.5)} {rng.choice([100, 100, 101])}")
         elif r < 0.45:
